@@ -2,6 +2,7 @@ import Gimli.Lemmas.LineSeq
 import Gimli.Lemmas.LineHeader
 import Gimli.Lemmas.LineEncode
 import Gimli.Lemmas.LineHeaderRt
+import Gimli.Lemmas.LineNext
 /-!
 # C04 — Line-number rows equal the DWARF state machine; sequences are consistent
 
@@ -320,6 +321,15 @@ instruction consumes at least one byte. -/
 theorem run_total (h : Params) (bs : Bytes) : Ev.stuck ∉ trace h bs ∧ Ev.stuck ∉ run h bs := by
   have h1 : Ev.stuck ∉ trace h bs := traceLoop_not_stuck h _ _ bs (by omega)
   exact ⟨h1, fun hm => h1 (List.mem_filter.mp hm).1⟩
+
+/-- **The trace is the API**: a caller that constructs `LineRows` (registers `LineRow::new`) and
+calls `next_row()` until it returns `Ok(None)` receives, call by call, exactly `run h bs` — the
+list all theorems above are about (`nextRow` mirrors one call: reset, then the loop with tombstone
+suppression; a parse error empties the input; an `execute` error is returned and the next call
+goes on). -/
+theorem next_row_iteration (h : Params) (bs : Bytes) :
+    collect h (bs.length + 1) (Row.new h) bs = run h bs :=
+  collect_eq_run h _ _ bs (by omega)
 
 /-- `LineInstruction::parse` returns an instruction or an error on every input and header, and a
 successful parse consumes at least one byte and does not depend on what follows the instruction -/
